@@ -810,35 +810,79 @@ func c11ErrorWrap(c *Ctx, br *callBridge) {
 
 func c11KindTables(c *Ctx) {
 	const rule = "C11.kind-tables-agree"
-	// kinds listed in the package-level table
-	tab := c.globalKindList("basicNumberKind")
 	conv := c.fn("convToBasicNumber")
-	if tab == nil || conv == nil {
-		c.R.Undecided(rule, "tables", "-", "numeric kind table or converter not found")
+	if conv == nil || len(conv.Params) != 2 {
+		c.R.Undecided(rule, "tables", "-", "numeric converter not found")
 		return
 	}
-	arms := map[int64]bool{}
-	instrs(conv, func(b *ssa.BasicBlock, i int, in ssa.Instruction) {
-		bo, ok := in.(*ssa.BinOp)
-		if !ok || bo.Op != token.EQL {
-			return
+	// the predicate "is this parameter kind filled by the numeric converter": a module func(reflect.Kind) bool called
+	// by a function that also calls the numeric converter
+	var pred *ssa.Function
+	for _, f := range c.P.ModFuncs {
+		if len(callsTo(f, conv)) == 0 {
+			continue
 		}
-		if call, ok := bo.X.(*ssa.Call); ok && call.Call.IsInvoke() && call.Call.Method.Name() == "Kind" {
-			if n, ok := constIntArg(bo.Y); ok {
-				arms[n] = true
+		instrs(f, func(b *ssa.BasicBlock, i int, in ssa.Instruction) {
+			call, ok := in.(*ssa.Call)
+			if !ok {
+				return
+			}
+			g := calleeOf(call)
+			if g == nil || !c.inModule(g) || g.Signature.Params().Len() != 1 || g.Signature.Results().Len() != 1 {
+				return
+			}
+			if g.Signature.Params().At(0).Type().String() == "reflect.Kind" && isBoolType(g.Signature.Results().At(0).Type()) {
+				pred = g
+			}
+		})
+	}
+	if pred == nil {
+		c.R.Undecided(rule, "tables", "-", "the predicate that routes a parameter kind to the numeric converter was not found")
+		return
+	}
+	member, isTable := c.membershipTable(pred)
+	inTable := func(k int64) (bool, bool) {
+		if isTable {
+			for _, m := range member {
+				if m == k {
+					return true, true
+				}
+			}
+			return false, true
+		}
+		r := (&Folder{P: c.P, MaxDepth: 1}).Fold(pred, []LV{intLV(k)})
+		return boolResult(r, 0)
+	}
+	// an arm of the converter for kind k: with a number as source and target.Kind() = k a value is returned
+	src := conv.Params[0]
+	hasArm := func(k int64) bool {
+		r := c.foldWith(conv, 1, pinTypeCase(src, "*decimal.Big"), pinCall("Kind", cInt(k), func(call *ssa.Call) bool { return call.Call.IsInvoke() }))
+		for _, ret := range r.Returns {
+			if len(ret.Results) == 2 && isNilConst(ret.Results[1]) && !isNilConst(ret.Results[0]) {
+				return true
 			}
 		}
-	})
-	names := map[int64]string{}
-	for _, k := range reflectKinds(c) {
-		names[k.val] = k.name
+		return false
 	}
-	for k := range tab {
-		c.R.Check(rule, "kind:"+names[k], c.P.Pos(conv.Pos()), arms[k], "kind "+names[k]+" is listed as a basic number kind but the numeric converter has no arm for it: such a parameter can never be filled")
-	}
-	for k := range arms {
-		if !tab[k] {
-			c.R.Check(rule, "kind:"+names[k], c.P.Pos(conv.Pos()), false, "the numeric converter has an arm for "+names[k]+" but the kind table does not list it: the arm is dead and parameters of that kind are refused")
+	n := 0
+	for _, kn := range reflectKinds(c) {
+		t, ok := inTable(kn.val)
+		if !ok {
+			c.R.Undecided(rule, "kind:"+kn.name, c.P.Pos(pred.Pos()), "the kind predicate does not fold for this kind")
+			continue
+		}
+		arm := hasArm(kn.val)
+		if !t && !arm {
+			continue
+		}
+		n++
+		switch {
+		case t && !arm:
+			c.R.Check(rule, "kind:"+kn.name, c.P.Pos(conv.Pos()), false, "kind "+kn.name+" is listed as a basic number kind but the numeric converter has no arm for it: such a parameter can never be filled")
+		case !t && arm:
+			c.R.Check(rule, "kind:"+kn.name, c.P.Pos(conv.Pos()), false, "the numeric converter has an arm for "+kn.name+" but the kind predicate does not accept it: the arm is dead and parameters of that kind are refused")
+		default:
+			c.R.Add(rule, "kind:"+kn.name, c.P.Pos(conv.Pos()), OK, "")
 		}
 	}
 	c.R.Floor(rule, 7)
@@ -867,7 +911,6 @@ func c11NumberArms(c *Ctx) {
 		c.R.Undecided(rule, "converter", "-", "numeric converter not found")
 		return
 	}
-	n := 0
 	var walk func(v ssa.Value, seen map[ssa.Value]bool) string
 	walk = func(v ssa.Value, seen map[ssa.Value]bool) string {
 		if seen[v] {
@@ -912,9 +955,82 @@ func c11NumberArms(c *Ctx) {
 		return fmt.Sprintf("%T", v)
 	}
 	per := map[string]int{}
+	// the per-kind conversions may live in a constant table of small functions applied to the float:
+	// `conv, ok := table[target.Kind()]; return conv(f), nil`
+	type unit struct {
+		fn    *ssa.Function
+		bound map[ssa.Value]ssa.Value // parameter of the table function -> argument at the call site
+	}
+	units := []unit{{conv, nil}}
 	instrs(conv, func(b *ssa.BasicBlock, i int, in ssa.Instruction) {
 		ret, ok := in.(*ssa.Return)
 		if !ok || len(ret.Results) != 2 || !isNilConst(ret.Results[1]) {
+			return
+		}
+		call, ok := ret.Results[0].(*ssa.Call)
+		if !ok || call.Call.IsInvoke() || calleeOf(call) != nil {
+			return
+		}
+		var lk *ssa.Lookup
+		switch x := call.Call.Value.(type) {
+		case *ssa.Lookup:
+			lk = x
+		case *ssa.Extract:
+			lk, _ = x.Tuple.(*ssa.Lookup)
+		}
+		if lk == nil {
+			return
+		}
+		tab, ok := (&Folder{P: c.P}).constTable(&FoldResult{Fn: conv, Vals: map[ssa.Value]LV{}}, lk.X)
+		if !ok {
+			return
+		}
+		var keys []string
+		for k := range tab {
+			keys = append(keys, k)
+		}
+		sort.Strings(keys)
+		for _, k := range keys {
+			g := fnValue(tab[k].V)
+			if g == nil || len(g.Params) != len(call.Call.Args) {
+				continue
+			}
+			bound := map[ssa.Value]ssa.Value{}
+			for i, p := range g.Params {
+				bound[p] = call.Call.Args[i]
+			}
+			units = append(units, unit{g, bound})
+		}
+	})
+	var curBound map[ssa.Value]ssa.Value
+	baseWalk := walk
+	walk = func(v ssa.Value, seen map[ssa.Value]bool) string {
+		if curBound != nil {
+			if a, ok := curBound[v]; ok {
+				return baseWalk(a, map[ssa.Value]bool{})
+			}
+		}
+		return baseWalk(v, seen)
+	}
+	for _, u := range units {
+		curBound = u.bound
+		c11NumberReturns(c, rule, u.fn, u.fn.Signature.Results().Len() == 1, walk, per)
+	}
+	c.R.Floor(rule, 5)
+}
+
+// c11NumberReturns examines the numeric results of one function (the converter itself, or one table entry).
+func c11NumberReturns(c *Ctx, rule string, f *ssa.Function, single bool, walk func(v ssa.Value, seen map[ssa.Value]bool) string, per map[string]int) {
+	instrs(f, func(b *ssa.BasicBlock, i int, in ssa.Instruction) {
+		ret, ok := in.(*ssa.Return)
+		if !ok {
+			return
+		}
+		if single {
+			if len(ret.Results) != 1 {
+				return
+			}
+		} else if len(ret.Results) != 2 || !isNilConst(ret.Results[1]) {
 			return
 		}
 		mi, ok := ret.Results[0].(*ssa.MakeInterface)
@@ -925,7 +1041,6 @@ func c11NumberArms(c *Ctx) {
 		if !ok || bt.Info()&types.IsNumeric == 0 {
 			return
 		}
-		n++
 		per[bt.Name()]++
 		why := walk(mi.X, map[ssa.Value]bool{})
 		what := "truncation toward zero"
@@ -934,7 +1049,6 @@ func c11NumberArms(c *Ctx) {
 		}
 		c.R.Check(rule, fmt.Sprintf("result:%s#%d", bt.Name(), per[bt.Name()]), c.P.InstrPos(ret), why == "", "a number converted to "+bt.Name()+" must be Go's conversion of the decimal's Float64()/Int64() ("+what+"); this result passes through "+why)
 	})
-	c.R.Floor(rule, 5)
 }
 
 // c11SourceReturn: a per-kind converter may hand back its source unchanged only behind a test that the source's
